@@ -16,7 +16,9 @@ PROPS = {
         # batches whose notification is still pending), so the kernel is re-verified here
         # c16_policy: "... no matter what has been evicted" rests on the cache never evicting an entry whose owner reports it pinned
         # (pin count > 0 = an unflushed write): the policy, its dispatcher and the atomic remove closure are re-verified here
-        "verus": ["c09_staging", "c09_pins", "c10_writebehind", "c16_policy"],
+        # c10_coalesce: what a committed batch leaves in the store (= what a read falls back to once the staging log is trimmed and
+        # the cache entry evicted) is the NET effect of the operations staged into it, last writer per slot
+        "verus": ["c09_staging", "c09_pins", "c10_writebehind", "c10_coalesce", "c16_policy"],
         "kani": [],
         "native": [
             {"name": "cached_maps_read_your_writes", "bin": "replay_c09", "crate": "replay", "tiers": ("quick", "thorough"),
@@ -25,6 +27,7 @@ PROPS = {
         "witness": witness.c09,
         "assumptions": [
             "ONLY the overlay arithmetic of the key-to-set cache is under contract: Ord for VersionedOperation, ConcurrentLog::apply_message_to_heap, ConcurrentLog::replay (+ spec-level lemma: overlay == fold of all operations in issue order, on any base set)",
+            "c09_pins, eviction question: `PinnedLifecycleListener::is_pinned` (wide-column caches) answers pinned exactly when the pin count is positive -- whatever the entry holds, a value or remembered absence -- and `PinnedLogLifecycleListener::is_pinned` (staging logs of the key-to-set cache) exactly when the dirty counter is non-zero; atomics are read as plain cells (the policy asks under the entry lock: c16_policy remove_closure)",
             "c09_pins: the per-entry state machine of the wide-column caches -- the closures `WideColumnCache::insert` and `::remove` run on the locked entry are under CLOSURE contracts (spliced in textually: text-sub): afterwards the entry holds the written value resp. remembered absence, the pin count went up by exactly one iff the batch updated the key, an entry with pins > 0 is never dropped (it is what hides the stale store value), the replaced value is returned. Model: tiny_lfu::Entry handles HOLD the locked slot (prophecy contracts, as the HashMap entry model); AtomicI32 under the lock is a plain cell; TinyLFU::entry itself (concurrent map) only promises to call the closure on a well-formed handle; ASSUMPTION: fewer than 2^31 - 1 unflushed batches per key",
             "NOT decided: WideColumnCache / CacheSingleMap / CacheDynamicMap read-your-writes (pin counts x TinyLFU eviction x single-flight fills x after-commit thread: a concurrent argument spanning four components), races between reads and flushes, get_snapshot's glue (RwLock, deferred SegQueue, collect + sort_by_key), fetch_entry / MergeIterator (generic iterators): these are covered only by the bounded run",
             "std models: BinaryHeap (abstract-order view; peek/pop yield a greatest element w.r.t. Ord), HashSet view under obeys_key_model, derived ordering of Epoch, element Clone/Hash/Eq sanity (axiom_element_type)",
@@ -188,6 +191,8 @@ PROPS = {
         "native": [
             {"name": "roundtrip_types_not_under_contract", "bin": "replay_c12", "crate": "replay", "tiers": ("quick", "thorough"),
              "bound": "exhaustive 8/16-bit integers, every 7-bit varint boundary +-1 and 64 seeded values per wider width, nested through the generic constructors; String/PathBuf, BTree*/Hash*/VecDeque/LinkedList, SmallVec, BitVec (5 storage types x 2 bit orders x 17 lengths x 3 head offsets), derive fixtures; interned handles (Interned<String|str|PathBuf|Path|Vec<u32>|[u32]>, repeats, equal content under different handle types in one session in every order, nested handles; decoded with a FRESH interner and with the writer's): decode(encode(v)) == v and exact consumption, on the real crates with the optional features on"},
+            {"name": "range_inclusive_exhausted_flag", "bin": "replay_c12", "crate": "replay", "tiers": ("quick", "thorough"), "args": ["--only", "range_inclusive_exhausted"], "thorough_seeds": 1,
+             "bound": "3 directed inputs: RangeInclusive<u32|i64|char> iterated to exhaustion (front / drained / back) -- decode(encode(v)) == v on the real crate (known finding F4)"},
         ],
         "witness": witness.c12,
         "assumptions": [
@@ -200,7 +205,8 @@ PROPS = {
             "c12_interned: WiredInterned<T> (the framing of interned handles) is an ordinary Wire type verified in both directions; `Encode for Interned<T>` is verified against a session-aware contract (SessionEncode, header-sub): source form iff (T::STABLE_TYPE_ID, content hash) was not yet in the session's seen-set, reference form (tag 1 + hash) otherwise. Stand-ins: Session::get_mut_or_default (typed slot borrow), Interner::hash_128 (a function of the value), Plugin::get (ASSUMED to hold the interner), Compact128 codec (derive shape verified in c12_derive), FxHashSet, obeys_key_model::<InternedID>. NOT decided deductively: that the decoder's interner still holds every referenced value when `get_from_hash::<T>` runs (shared interner behind &Plugin, Weak handles, inner encodes may touch the session) and the four Decode impls for Interned<..> -- covered by the bounded run only",
             "strings (rule R14): Encoder::emit_str / Decoder::read_str, Encode for str/String, Decode for String/Box<str>/Rc<str>/Arc<str> are under contract with image = LEB128 byte count + utf8(view). Trusted string model: utf8 is an uninterpreted injective function of the character sequence; str::as_bytes/str::len return utf8(view) and its length; String::from_utf8 accepts exactly the utf8 images; a VALUE of a string type holds at most isize::MAX bytes; into_boxed_str / Rc<str>::from / Arc<str>::from keep the characters",
             "VecDeque: Encode and Decode under contract (vstd model of VecDeque); rule R16: `for item in self` (self: &VecDeque) is read as `for item in self.iter()` -- std's `IntoIterator for &VecDeque` is `iter()`; vstd models only the latter",
-            "not under contract: Path/PathBuf/OsStr, LinkedList/BTreeMap/BTreeSet/HashMap/HashSet/DashMap/DashSet (iterator models), Cow, RefCell, atomics, [T;N]::decode (MaybeUninit), SmallVec, BitVec",
+            "HashMap / HashSet: Encode and Decode under RELATIONAL contracts (impl headers rewritten to MapEncode/MapDecode/SetEncode/SetDecode -- rewrite HDR -- because the image follows the iteration order and is not a function of the value): encode appends the count and the entry images in some duplicate-free enumeration of the keys; decode on the image of any entry sequence s consumes exactly it and returns the collection built by inserting entries image-equal to s in order; lemma_hashmap_roundtrip / lemma_hashset_roundtrip conclude view equality when element images are injective. Trusted: with_capacity_and_hasher returns an empty collection; obeys_key_model::<K>() and builds_valid_hashers::<S>() are preconditions (Hash/Eq of the key type and the hasher are lawful)",
+            "not under contract: Path/PathBuf/OsStr, LinkedList/BTreeMap/BTreeSet/DashMap/DashSet (no iterator models), Cow, RefCell, atomics, [T;N]::decode (MaybeUninit), SmallVec, BitVec",
             "derive macros: verified on the fixture types of fixtures/derive_fix (named/tuple/unit/generic structs, enums with unit/tuple/struct variants, generic enum, skip on first/middle/last positions), expanded on every run by the real proc-macro crate; other shapes are covered only in so far as the macro treats them uniformly",
             "rule R13: alpha-renaming of the derive's method type parameter (__E/__D -> E/D)",
         ],
